@@ -64,6 +64,9 @@ var c14 = gen.Register(&gen.Check[caseC14]{
 				out = append(out, caseC14{S: SV{Hex: gen.H(v)}, Noise: k})
 			}
 		}
+		for _, v := range gen.DictFixed(ref.N, gen.DictStride()) {
+			out = append(out, caseC14{S: SV{Hex: gen.H(v)}}, caseC14{S: SV{Hex: gen.H(v), Mont: true}})
+		}
 		// exhaustive over limb-pattern products, canonical and Montgomery
 		for _, m := range gen.WordProducts(new(big.Int), 64, func(w, mask uint64) []uint64 { return gen.LimbPatterns }) {
 			if m.Cmp(ref.N) < 0 {
